@@ -227,6 +227,50 @@ class Sim(Layout):
                 r = self.hooks["*callable"](self, v, args, kwargs, n)
                 if r is not NotImplemented:
                     return r
+        # methods of the simulated object itself are followed into the repository's code (self_class set by the scenario)
+        if isinstance(f, ast.Attribute) and getattr(self, "self_class", None) and not (self.hooks.get(full) or self.hooks.get(name)):
+            try:
+                ro = self.ev(f.value, env, fi)
+            except LayoutUnknown:
+                ro = None
+            if isinstance(ro, Obj) and ro.name == "self":
+                g = self.prog.resolve(self.self_class, f.attr)
+                if g is not None and self.depth < 10:
+                    args, kwargs = self._call_args(n, env, fi)
+                    return self.call_function(g, [ro] + args, kwargs)
+        # Class.method(self, ...) and super().method(...) of the simulated object
+        if isinstance(f, ast.Attribute) and getattr(self, "self_class", None) and not (self.hooks.get(full) or self.hooks.get(name)):
+            target = None
+            if isinstance(f.value, ast.Name) and f.value.id in self.prog.classes and f.value.id not in env and n.args:
+                a0 = self.ev(n.args[0], env, fi) if not isinstance(n.args[0], ast.Starred) else None
+                if isinstance(a0, Obj) and a0.name == "self":
+                    target, skip = self.prog.resolve(f.value.id, f.attr), 1
+            elif isinstance(f.value, ast.Call) and isinstance(f.value.func, ast.Name) and f.value.func.id == "super" and not f.value.args and fi.cls is not None:
+                mro = [k.name for k in self.prog.mro(self.self_class)]
+                own = fi.cls.name if hasattr(fi.cls, "name") else fi.cls
+                if own in mro:
+                    for k in mro[mro.index(own) + 1:]:
+                        g = self.prog.classes[k].methods.get(f.attr)
+                        if g is not None:
+                            target, skip = g, 0
+                            break
+            if target is not None and self.depth < 10:
+                sub = ast.Call(func=n.func, args=n.args[skip:], keywords=n.keywords)
+                args, kwargs = self._call_args(sub, env, fi)
+                me = self.ev(n.args[0], env, fi) if skip else env.get(fi.params[0])
+                return self.call_function(target, [me] + args, kwargs)
+        if isinstance(f, ast.Name) and f.id == "setattr" and len(n.args) == 3 and "setattr" not in env:
+            o, a, v = (self.ev(x, env, fi) for x in n.args)
+            if isinstance(o, Obj) and isinstance(a, str):
+                o.attrs[a] = v
+                return None
+            raise LayoutUnknown("setattr(%s, %s, ..)" % (short(o), short(a)))
+        if isinstance(f, ast.Name) and f.id == "getattr" and len(n.args) in (2, 3) and "getattr" not in env:
+            vals = [self.ev(x, env, fi) for x in n.args]
+            if isinstance(vals[0], Obj) and isinstance(vals[1], str):
+                if vals[1] in vals[0].attrs:
+                    return vals[0].attrs[vals[1]]
+                return self._class_const(vals[0], vals[1], Sym("attr", vals[0].name, vals[1]) if len(vals) == 2 else vals[2])
         # a local name bound to a symbolic callable (sampler = self._grid_control; sampler(...))
         if isinstance(f, ast.Name) and f.id in env and isinstance(env[f.id], Sym) and "*callable" in self.hooks:
             args = [self.ev(a, env, fi) for a in n.args if not isinstance(a, ast.Starred)]
@@ -327,12 +371,24 @@ class Sim(Layout):
         if isinstance(o, Obj):
             if n.attr in o.attrs:
                 return o.attrs[n.attr]
-            return Sym("attr", o.name, n.attr)
+            return self._class_const(o, n.attr, Sym("attr", o.name, n.attr))
         if isinstance(o, Sym) and o.op == "global":
             return Sym("global", o.args[0] + "." + n.attr)
         if isinstance(o, tuple) and n.attr == "shape":
             return o
         return Sym("attr", freeze(o), n.attr)
+
+    def _class_const(self, o, attr, default):
+        """a literal constant bound in the class body (MRO of the simulated object's class)"""
+        if o.name == "self" and getattr(self, "self_class", None):
+            for k in self.prog.mro(self.self_class):
+                for st in k.node.body:
+                    if isinstance(st, ast.Assign) and any(isinstance(t, ast.Name) and t.id == attr for t in st.targets):
+                        try:
+                            return ast.literal_eval(st.value)
+                        except (ValueError, SyntaxError):
+                            return default
+        return default
 
     def _e_Subscript(self, n, env, fi):
         o = self.ev(n.value, env, fi)
